@@ -837,6 +837,25 @@ class MeshRegion:
         self.dx.centre = (self.psi_vals[2::2] - self.psi_vals[:-2:2])[:, numpy.newaxis]
         self.dx.ylow = (self.psi_vals[2::2] - self.psi_vals[:-2:2])[:, numpy.newaxis]
 
+        # Spacing at the x-faces: difference in psi between the cell centres on either
+        # side of the face. For the faces on the radial boundaries of this region use
+        # the cell centre of the neighbouring region if there is one, otherwise twice
+        # the width of the half-cell next to the face (as DDX() assumes).
+        dx_xlow = numpy.zeros(self.nx + 1)
+        dx_xlow[1:-1] = self.psi_vals[3::2] - self.psi_vals[1:-2:2]
+        inner = self.getNeighbour("inner")
+        if inner is not None:
+            dx_xlow[0] = self.psi_vals[1] - inner.psi_vals[-2]
+        else:
+            dx_xlow[0] = 2.0 * (self.psi_vals[1] - self.psi_vals[0])
+        outer = self.getNeighbour("outer")
+        if outer is not None:
+            dx_xlow[-1] = outer.psi_vals[1] - self.psi_vals[-2]
+        else:
+            dx_xlow[-1] = 2.0 * (self.psi_vals[-1] - self.psi_vals[-2])
+        self.dx.xlow = dx_xlow[:, numpy.newaxis]
+        self.dx.corners = dx_xlow[:, numpy.newaxis]
+
         if self.psi_vals[0] > self.psi_vals[-1]:
             # x-coordinate is -psixy so x always increases radially across grid
             self.bpsign = -1.0
